@@ -448,10 +448,15 @@ func (cc *connectUnaryClientConn) validateResponse(response *http.Response) *Err
 			// body: that, rather than the HTTP status, is why it failed.
 			return unmarshalErr
 		}
-		return NewError(
+		// We can't tell what the error is, but the metadata that came with it
+		// arrived in the HTTP headers all the same.
+		statusErr := NewError(
 			connectHTTPToCode(response.StatusCode),
 			errors.New(response.Status),
 		)
+		statusErr.meta = cc.responseHeader.Clone()
+		mergeHeaders(statusErr.meta, cc.responseTrailer)
+		return statusErr
 	}
 	cc.unmarshaler.compressionPool = cc.compressionPools.Get(compression)
 	return nil
